@@ -57,6 +57,13 @@ class LabObj(AutoParameterObject):
         return ['b']
 
 
+class LabObjSet(AutoParameterObject):
+    """parameter object holding a set (the library's persistence helpers explicitly handle sets)"""
+
+    def __init__(self, tags):
+        self.tags = set(tags)
+
+
 class LabObjPlain(ParameterObject):
     def __init__(self, x):
         self.x = x
@@ -93,6 +100,8 @@ def pcanon(v):
         return ['obj', 'LabObj', d]
     if isinstance(v, LabObjPlain):
         return ['obj', 'LabObjPlain', {'x': pcanon(v.x)}]
+    if isinstance(v, LabObjSet):
+        return ['obj', 'LabObjSet', {'tags': sorted(v.tags)}]
     if isinstance(v, list):
         return ['l', [pcanon(x) for x in v]]
     if isinstance(v, dict):
@@ -106,6 +115,8 @@ def received_canon(v):
         return ['obj', 'LabObj', {'a': received_canon(v.a), 'b': received_canon(v._b), 'verbose': received_canon(v.verbose)}]
     if isinstance(v, LabObjPlain):
         return ['obj', 'LabObjPlain', {'x': received_canon(v.x)}]
+    if isinstance(v, LabObjSet):
+        return ['obj', 'LabObjSet', {'tags': sorted(v.tags)}]
     if isinstance(v, list):
         return ['l', [received_canon(x) for x in v]]
     if isinstance(v, dict):
